@@ -172,3 +172,15 @@ func (c *Ctx) reachableObjects(root *ai.Object) map[int]bool {
 	walk(root)
 	return out
 }
+
+// onStack reports whether one of the functions named in allowed (by short name) is on the
+// interpreter's call stack: ownership rules ask "is this store made on behalf of routine X",
+// not "is the store textually inside X", so extracting a helper does not change the verdict.
+func (c *Ctx) onStack(allowed map[string]bool) bool {
+	for _, f := range c.W.It.Stack {
+		if allowed[fnName(f)] || allowed[fnName(unwrapBound(f))] || allowed[fnName(outerFn(f))] {
+			return true
+		}
+	}
+	return false
+}
